@@ -3,9 +3,10 @@
 #         soundness for all (f,m,k), completeness in the envelope, fuel sufficiency)
 # tie:    correspondence: extracted model vs every public call form of /repo's current sources
 #         (Rational::ratrecon / RationalReconstruction x3, ZRing<Integer> wrappers, Rational ctor, QField);
-#         polynomial version: extracted list model vs Poly1Dom<Modular<int64_t>,Dense>::ratrecon / ratreconcheck
-# search: python big-integer specification oracle (congruence, bounds, gcd, expected a/b)
-import math, os, sys
+#         polynomial version: extracted list model vs Poly1Dom<Modular<int64_t>|Modular<double>,Dense>::ratrecon (5 and 6 args) / ratreconcheck
+# search: python specification oracle (integers: congruence, bounds, gcd, expected a/b;
+#         polynomials over Z/p: congruence, degree bound, den != 0, gcd and monic den when reduced)
+import math, os, sys, time
 import vf
 
 AREA = "C11"
@@ -156,7 +157,7 @@ def gen_residue(rng, m):
 
 def first_candidate(f, m, k):
     """statistics only (which branch a case takes): the Euclidean remainder sequence stopped at r1 < k"""
-    r0, t0, r1, t1 = m, 0, (f + m if f < 0 else f), 1
+    r0, t0, r1, t1 = m, 0, (f % m if f < 0 else f), 1
     n = 0
     while r1 >= k:
         q = r0 // r1
@@ -176,7 +177,7 @@ def spec_check(op, a, out):
         f, m, k, fr = a
         if not (m >= 2 and 1 <= k <= m): return bad
         if ok:
-            kl = "f<-m" if f < -m else "in-domain"
+            kl = "in-domain"
             if (n - d * f) % m != 0: bad.append((kl, "num != den*f (mod m)"))
             if not abs(n) < k: bad.append((kl, "|num| >= k"))
             if not d > 0: bad.append((kl, "den <= 0"))
@@ -195,7 +196,7 @@ def spec_check(op, a, out):
         if not m >= 2: return bad
         k = isqrt(m)
         if ok:
-            kl = "f<-m" if f < -m else "in-domain"
+            kl = "in-domain"
             if (n - d * f) % m != 0: bad.append((kl, "num != den*f (mod m)"))
             if not abs(n) < k: bad.append((kl, "|num| >= sqrt(m)"))
             if not d > 0: bad.append((kl, "den <= 0"))
@@ -206,7 +207,7 @@ def spec_check(op, a, out):
         k = max((abs(f) // bb) * (1 if f >= 0 else -1), ab)      # x/b_bound truncates
         if not 1 <= k <= m: return bad
         if ok:
-            kl = "f<-m" if f < -m else "in-domain"
+            kl = "in-domain"
             if (n - d * f) % m != 0: bad.append((kl, "num != den*f (mod m)"))
             if not abs(n) < k: bad.append((kl, "|num| >= max(a_bound, f/b_bound)"))
             if not 0 < d <= bb: bad.append((kl, "den not in (0, b_bound]"))
@@ -219,7 +220,7 @@ def spec_check(op, a, out):
             f, m, k, fl, rc = a
         if not (m >= 2 and 1 <= k <= m): return bad
         if (n - d * f) % m != 0: bad.append(("in-domain", "num != den*f (mod m)"))
-        if f >= -m and not d > 0: bad.append(("in-domain", "den <= 0"))
+        if not d > 0: bad.append(("in-domain", "den <= 0"))
     return bad
 
 
@@ -232,7 +233,7 @@ def spec_complete(op, a, frac, out):
     elif op == "rr7": f, m, k, fr, rc = a
     else: return None
     s = isqrt(m)
-    if not (m >= 2 and k == s and fr and 4 * abs(x) <= s and 4 * y <= s and f >= -m): return None
+    if not (m >= 2 and k == s and fr and 4 * abs(x) <= s and 4 * y <= s): return None
     return (1, x, y)
 
 
@@ -296,18 +297,202 @@ def gen_cases(rng, tier, chk):
     return cases
 
 
+# ------------------------------------------------------------------ polynomials over Z/p (python oracle, independent of the model)
+def ptrim(a):
+    a = list(a)
+    while a and a[-1] == 0: a.pop()
+    return a
+
+def pdeg(a): return len(ptrim(a)) - 1
+
+def padd(a, b, p):
+    n = max(len(a), len(b))
+    return ptrim([((a[i] if i < len(a) else 0) + (b[i] if i < len(b) else 0)) % p for i in range(n)])
+
+def psub(a, b, p):
+    n = max(len(a), len(b))
+    return ptrim([((a[i] if i < len(a) else 0) - (b[i] if i < len(b) else 0)) % p for i in range(n)])
+
+def pmul(a, b, p):
+    if not a or not b: return []
+    r = [0] * (len(a) + len(b) - 1)
+    for i, x in enumerate(a):
+        if x:
+            for j, y in enumerate(b):
+                r[i + j] = (r[i + j] + x * y) % p
+    return ptrim(r)
+
+def pdivmod(a, b, p):
+    a, b = ptrim(a), ptrim(b)
+    q = [0] * max(0, len(a) - len(b) + 1)
+    ib = pow(b[-1], -1, p)
+    a = list(a)
+    while len(a) >= len(b):
+        c = a[-1] * ib % p
+        d = len(a) - len(b)
+        q[d] = c
+        for j, y in enumerate(b):
+            a[d + j] = (a[d + j] - c * y) % p
+        a = ptrim(a[:-1]) if a[-1] == 0 else ptrim(a)
+    return ptrim(q), ptrim(a)
+
+def pgcd(a, b, p):
+    a, b = ptrim(a), ptrim(b)
+    while b:
+        a, b = b, pdivmod(a, b, p)[1]
+    return a
+
+def pinvmod(a, m, p):
+    """inverse of a modulo m in (Z/p)[X] or None"""
+    r0, t0, r1, t1 = ptrim(m), [], pdivmod(a, m, p)[1], [1]
+    while r1:
+        q, r = pdivmod(r0, r1, p)
+        r0, t0, r1, t1 = r1, t1, r, psub(t0, pmul(q, t1, p), p)
+    if len(r0) != 1: return None
+    c = pow(r0[0], -1, p)
+    return pdivmod([x * c % p for x in t0], m, p)[1]
+
+POLY_PRIMES = [2, 3, 5, 7, 13, 101, 257, 65521, 1048573, 67108859]
+
+def rand_poly(rng, p, d, monic=False):
+    """degree exactly d (d = -1: zero)"""
+    if d < 0: return []
+    sparse = rng.chance(1, 4)
+    a = [(0 if sparse and rng.chance(1, 2) else rng.below(p)) for _ in range(d)]
+    a.append(1 if monic else rng.range(1, p - 1))
+    return a
+
+def gen_poly_case(rng, big):
+    """returns (variant, args list for the line, fclass, expected fraction or None)"""
+    p = rng.choice(POLY_PRIMES)
+    dM = rng.choice([1, 2, 3, 4, 5, 6, 8, 11, 16] + ([24, 33, 48] if big else []))
+    c = rng.below(12)
+    M = rand_poly(rng, p, dM, monic=rng.chance(1, 2))
+    if c == 0:                       # modulus X^n (the Pade case) or a power of a small polynomial
+        M = [0] * dM + [1]
+    elif c == 1 and dM >= 2:
+        b = rand_poly(rng, p, 1)
+        M = [1]
+        for _ in range(dM): M = pmul(M, b, p)
+    dk = rng.choice([0, 0, 1, dM - 1, max(0, dM // 2), max(0, (dM - 1) // 2), rng.range(0, dM - 1)])
+    frac = None
+    fclass = "random"
+    r = rng.below(16)
+    if r < 7:                        # P = A / B mod M with deg A <= dk, deg B <= dM - dk - 1
+        dA = rng.choice([dk, dk, rng.range(-1, dk), max(-1, dk - 1)])
+        dB = rng.choice([dM - dk - 1, dM - dk - 1, rng.range(0, dM - dk - 1), max(0, dM - dk - 2), 0])
+        A = rand_poly(rng, p, dA)
+        B = rand_poly(rng, p, dB, monic=True)
+        if r == 6 and dA >= 1 and dB >= 1:          # common factor: the reconstructed pair is the reduced one
+            g = rand_poly(rng, p, 1, monic=True)
+            A = pmul(pdivmod(A, g, p)[0] or [1], g, p); B = pmul(pdivmod(B, g, p)[0] or [1], g, p)
+        Bi = pinvmod(B, M, p)
+        if Bi is not None:
+            P = pdivmod(pmul(A, Bi, p), M, p)[1]
+            fclass = "frac"
+            g = pgcd(A, B, p)
+            if len(g) == 1: frac = (A, B)
+        else:
+            P = rand_poly(rng, p, rng.range(-1, dM - 1)); fclass = "den-not-invertible"
+    elif r == 7: P = []; fclass = "zero"
+    elif r == 8: P = [rng.range(1, p - 1)]; fclass = "constant"
+    elif r == 9: P = rand_poly(rng, p, dM + rng.range(0, 3)); fclass = "deg>=degM"
+    elif r == 10: P = pmul(M, rand_poly(rng, p, rng.range(0, 2)), p); fclass = "multiple-of-M"
+    elif r == 11:                    # shares a factor with M
+        g = pgcd(M, rand_poly(rng, p, max(1, dM // 2)), p)
+        P = pdivmod(pmul(g, rand_poly(rng, p, rng.range(0, dM)), p), M, p)[1]; fclass = "gcd(P,M)!=1"
+    elif r == 12: P = rand_poly(rng, p, dk); fclass = "deg=dk"
+    else: P = rand_poly(rng, p, rng.range(max(0, dM - 2), dM - 1))
+    fr = rng.below(2)
+    v = rng.choice(["poly.rr5", "poly.check", "poly.rr6", "poly.rr6", "poly.rr5d", "poly.checkd", "poly.rr6d"])
+    args = [p, dk, fr, len(P)] + P + [len(M)] + M
+    return v, args, fclass, frac, (p, dk, fr, P, M)
+
+
+def parse_poly_out(line):
+    t = line.split()
+    if len(t) < 3 or t[1] != "N" or "D" not in t: return None
+    try:
+        i = t.index("D")
+        return int(t[0]), [int(x) for x in t[2:i]], [int(x) for x in t[i + 1:]]
+    except ValueError:
+        return None
+
+
+def poly_spec(v, pc, out):
+    """soundness clauses of the property for the polynomial version; domain: deg M >= 1, 0 <= dk < deg M"""
+    p, dk, fr, P, M = pc
+    ok, N, D = out
+    bad = []
+    if not (pdeg(M) >= 1 and 0 <= dk < pdeg(M)): return bad
+    if not ok: return bad
+    reduced = v.startswith("poly.check") or (v.startswith("poly.rr6") and fr)
+    if any(not 0 <= x < p for x in N + D): bad.append(("in-domain", "coefficient outside [0,p)"))
+    if pdivmod(psub(N, pmul(D, P, p), p), M, p)[1]: bad.append(("in-domain", "N != D*P (mod M)"))
+    if pdeg(N) > dk: bad.append(("in-domain", "deg N > bound"))
+    if not ptrim(D): bad.append(("in-domain", "D == 0"))
+    elif reduced:
+        if len(pgcd(N, D, p)) > 1: bad.append(("in-domain", "gcd(N,D) != 1 although a reduced fraction was requested"))
+        if ptrim(D)[-1] != 1: bad.append(("in-domain", "D not monic after ratreconcheck"))
+    return bad
+
+
+def poly_unique(pc, frac, out):
+    """polynomial analogue of the completeness clause: inside the uniqueness range (deg A <= dk, deg B < deg M - dk,
+    gcd(A,B) = gcd(B,M) = 1) the reconstruction must succeed with N/D = A/B.  Only judged for deg P > dk: for
+    deg P == dk the code does not take the early exit (it tests deg P < dk) and performs one more division step,
+    returning another pair that still satisfies the soundness clauses but has deg D = deg M - dk."""
+    p, dk, fr, P, M = pc
+    ok, N, D = out
+    A, B = frac
+    if not ok: return "reported failure although %s / %s is a solution" % (A, B)
+    if psub(pmul(N, B, p), pmul(A, D, p), p): return "N/D != A/B"
+    return None
+
+
+def run_parallel(binary, lines, nproc, timeout=1500):
+    """the extracted model computes on Coq's binary integers (slow on multi-limb moduli): run it on nproc
+    interleaved slices of the case list at once and put the output lines back in order"""
+    import subprocess
+    nproc = max(1, min(nproc, len(lines) or 1))
+    procs = []
+    for j in range(nproc):
+        pr = subprocess.Popen([binary], stdin=subprocess.PIPE, stdout=subprocess.PIPE, stderr=subprocess.PIPE, universal_newlines=True)
+        procs.append(pr)
+    import threading
+    outs, errs, rcs = [None] * nproc, [""] * nproc, [0] * nproc
+    def work(j):
+        try:
+            o, e = procs[j].communicate("".join(lines[j::nproc]), timeout=timeout)
+            outs[j], errs[j], rcs[j] = o.splitlines(), e, procs[j].returncode
+        except subprocess.TimeoutExpired:
+            procs[j].kill(); outs[j], errs[j], rcs[j] = [], "[timeout]", 124
+    ths = [threading.Thread(target=work, args=(j,)) for j in range(nproc)]
+    for t in ths: t.start()
+    for t in ths: t.join()
+    rc = max(rcs, key=abs)
+    if rc != 0 or any(len(outs[j]) != len(lines[j::nproc]) for j in range(nproc)):
+        return (rc or 1), [l for o in outs for l in (o or [])], "\n".join(errs)
+    res = [None] * len(lines)
+    for j in range(nproc):
+        res[j::nproc] = outs[j]
+    return 0, res, ""
+
+
 def main(tier, replay=None):
     chk = vf.Check("C11", tier, "proof")
     rng = vf.Rng(chk.seed)
     chk.cov["trusted_base"] = [
         "Coq 8.16.1 kernel",
         "extraction: ExtrOcamlBasic only; Z/positive/nat kept as extracted inductives; OCaml 4.13.1; zarith only for text I/O in harness/zio.ml",
-        "Integer primitives used by the code (tdiv_q, tdiv_r, submul, gcd, sqrt, compare) are given their GMP meaning on Z in Model.v (Z.quot, Z.rem, Z.gcd, Z.sqrt); validated by the correspondence run",
-        "harness/c11_ratrecon.C, harness/c11_polyratrecon.C, checks/C11.py (generators, python oracle)",
+        "Integer primitives used by the code (tdiv_q, tdiv_r, mpz_mod, submul, gcd, sqrt, compare) are given their GMP meaning on Z in Model.v (Z.quot, Z.rem, Z.modulo, Z.gcd, Z.sqrt); validated by the correspondence run",
+        "polynomial primitives (degree, div, mul, sub, gcd, leadcoef, divin over Z/p) are specified on coefficient lists in PolyModel.v, not translated; that these list operations form a ring with the degree laws assumed by C11_poly_ratrecon_sound is NOT proved (correspondence-tested; property C08's subject)",
+        "harness/c11_ratrecon.C, checks/C11.py (generators, python oracles)",
         "g++ / x86-64 / GMP for the implementation side",
     ]
-    chk.assumptions = ["model hand-written after givratreconstruct.C; tie = correspondence on generated cases for every public call form",
-                       "the `recurs` flag of ratrecon only controls std::cerr output and is not modelled"]
+    chk.assumptions = ["models hand-written after givratreconstruct.C and givpoly1ratrecon.inl; tie = correspondence on generated cases for every public call form",
+                       "the `recurs` flag of Rational::ratrecon only controls std::cerr output and is not modelled",
+                       "RationalReconstruction(a,b,x,m,a_bound,b_bound) is modelled with the repair frag/C11.fix-1.diff (returns ratrecon(...) && b <= b_bound)"]
     res = vf.coq_check_props(AREA)
     chk.proof_result(res, AREA)
     drv, l1 = vf.ocaml_build(AREA) if os.path.exists(os.path.join(vf.coq_dir(AREA), "ocaml", "model.ml")) else (None, "extraction did not run")
@@ -317,41 +502,79 @@ def main(tier, replay=None):
     if himpl is None:
         chk.broke("implementation harness does not compile against /repo", l2)
         return chk.finish()
-    # which of the two one-line repairs (frag/C11.fix-*.diff) does the source carry?  Probed on the implementation;
-    # the model takes the answer as flags, everything else about the behaviour is compared case by case.
-    rc, pout, perr = vf.run_lines(himpl, "ratrecon.static -11 5 5 1 1\nrr6.static 2 8 2 4\n", timeout=60)
-    fx1 = len(pout) == 2 and pout[0].split() == ["1", "4", "1"]
-    fx2 = len(pout) == 2 and pout[1].split()[:1] == ["0"]
-    chk.cov["source_variant"] = {"fix1_residue_below_minus_m_reduced": fx1, "fix2_rr6_uses_result_of_ratrecon": fx2, "probe_output": pout}
+    vf.log("C11: proofs+builds %.1fs" % (time.time() - chk.t0))
     cases = gen_cases(rng, tier, chk)
-    impl_in = "".join("%s %s\n" % (v, " ".join(str(x) for x in ia)) for v, op, ia, ma, fr, fc, mc in cases)
-    model_in = "".join("%s %s\n" % (op, " ".join(str(x) for x in ma)) for v, op, ia, ma, fr, fc, mc in cases)
+    # polynomial cases: (variant, op for the model, impl args, model args, frac, fclass, mclass, extra)
+    npoly = 2500 if tier == "quick" else 120000
+    pcases = []
+    for i in range(npoly):
+        v, args, fclass, frac, pc = gen_poly_case(rng, tier != "quick")
+        pcases.append((v, v[:-1] if v.endswith("d") else v, args, args, frac, fclass, "p=%d" % pc[0], pc))
+    # exhaustive small block over F_2 and F_3: every P of degree < deg M, every monic M of degree 1..3 (F_3: ..2), every dk
+    for p, dmax in ((2, 4 if tier == "quick" else 6), (3, 2 if tier == "quick" else 4)):
+        for dM in range(1, dmax + 1):
+            for mi in range(p ** dM):
+                M = [(mi // p ** j) % p for j in range(dM)] + [1]
+                for pi in range(p ** dM):
+                    P = ptrim([(pi // p ** j) % p for j in range(dM)])
+                    for dk in range(0, dM):
+                        for v in ("poly.rr5", "poly.check"):
+                            args = [p, dk, 1, len(P)] + P + [len(M)] + M
+                            pcases.append((v, v, args, args, None, "exhaustive", "p=%d" % p, (p, dk, 1, P, M)))
+    allc = [(v, op, ia, ma, frac, fc, mc, None) for (v, op, ia, ma, frac, fc, mc) in cases] + pcases
+    impl_in = "".join("%s %s\n" % (c[0], " ".join(str(x) for x in c[2])) for c in allc)
+    model_in = ["%s %s\n" % (c[1], " ".join(str(x) for x in c[3])) for c in allc]
+    vf.log("C11: generation done %.1fs" % (time.time() - chk.t0))
     rc, iout, ierr = vf.run_lines(himpl, impl_in, timeout=1500)
-    if rc != 0 or len(iout) != len(cases):
-        bad = cases[len(iout)] if len(iout) < len(cases) else None
-        chk.broke("implementation harness failed (rc=%s, %d/%d lines); next case: %s" % (rc, len(iout), len(cases), bad and (bad[0], bad[2])), ierr)
+    if rc != 0 or len(iout) != len(allc):
+        bad = allc[len(iout)] if len(iout) < len(allc) else None
+        chk.broke("implementation harness failed (rc=%s, %d/%d lines); next case: %s" % (rc, len(iout), len(allc), bad and (bad[0], bad[2])), ierr)
         return chk.finish()
     mout = None
     if drv:
-        rc, mout, merr = vf.run_lines(drv, model_in, timeout=1500, args=[str(int(fx1)), str(int(fx2))])
-        if rc != 0 or len(mout) != len(cases):
-            chk.broke("model driver failed (rc=%s, %d/%d lines)" % (rc, len(mout), len(cases)), merr)
+        rc, mout, merr = run_parallel(drv, model_in, 6 if tier == "quick" else 12)
+        if rc != 0 or len(mout) != len(allc):
+            chk.broke("model driver failed (rc=%s, %d/%d lines)" % (rc, len(mout), len(allc)), merr)
             mout = None
+    vf.log("C11: impl+model runs done %.1fs" % (time.time() - chk.t0))
     ncorr = 0
     stats = {}
     def st(key):
         stats[key] = stats.get(key, 0) + 1
-    for i, (v, op, ia, ma, frac, fclass, mclass) in enumerate(cases):
+    for i, (v, op, ia, ma, frac, fclass, mclass, pc) in enumerate(allc):
+        case = {"variant": v, "args": [str(x) for x in ia]}
+        st("variant/" + v); st("modulus/" + mclass); st("residue/" + ("poly-" if pc else "") + fclass)
+        if i % 1499 == 0:
+            chk.sample({"variant": v, "args": [str(x) for x in ia][:24], "impl": iout[i][:200]})
+        nfail = len(chk.failing)
+        if pc is not None:
+            # ---------------- polynomial case
+            out = parse_poly_out(iout[i])
+            chk.count((v, tuple(ia)), nontrivial=(pdeg(pc[4]) >= 2))
+            if out is None:
+                chk.broke("unparsable implementation output on %s %s: %r" % (v, ia, iout[i]))
+                continue
+            site = "polyratrecon:" + op[5:]
+            for klass, msg in poly_spec(v, pc, out):
+                chk.fail_input(site, klass, case, msg, iout[i], msg)
+            if out[0]: st("poly/success")
+            if frac is not None and 0 <= pc[1] < pdeg(pc[4]) and pdeg(pc[3]) > pc[1]:
+                st("poly/uniqueness-checked")
+                msg = poly_unique(pc, frac, out)
+                if msg and len(chk.failing) == nfail:
+                    chk.fail_input(site, "uniqueness", case, "N/D == %s / %s" % frac, iout[i], msg)
+            if mout is not None:
+                ncorr += 1
+                if len(chk.failing) == nfail and mout[i].split() != iout[i].split():
+                    chk.broke("correspondence model/implementation differs on %s %s: model=%s impl=%s" % (v, ia, mout[i], iout[i]))
+            continue
+        # ---------------- integer case
         out = parse_out(iout[i])
         flag = VARIANTS[v][3]
-        case = {"variant": v, "args": [str(x) for x in ia]}
         chk.count((v, tuple(ia)), nontrivial=(ma[1] > 3))
-        st("variant/" + v); st("modulus/" + mclass); st("residue/" + fclass)
         if out is None:
             chk.broke("unparsable implementation output on %s %s: %r" % (v, ia, iout[i]))
             continue
-        if i % 1499 == 0:
-            chk.sample({"variant": v, "args": [str(x) for x in ia], "impl": iout[i]})
         # branch statistics
         if op in ("ratrecon", "rr4") and ma[1] >= 2:
             k = ma[2] if op == "ratrecon" else isqrt(ma[1])
@@ -372,7 +595,7 @@ def main(tier, replay=None):
             if out != exp:
                 chk.fail_input("ratrecon:" + VARIANTS[v][0], "completeness", case, "%d %d %d" % exp, iout[i],
                                "fraction inside the uniqueness envelope not reconstructed")
-        # correspondence
+        # correspondence (not reported again for a case the oracle already rejects)
         if mout is not None:
             ncorr += 1
             mo = parse_out(mout[i])
@@ -385,21 +608,24 @@ def main(tier, replay=None):
                 chk.broke("unparsable model output on %s %s: %r" % (op, ma, mout[i]))
                 continue
             same = (mo == out) if flag else (mo[1:] == out[1:])
-            if not same:
+            if not same and len(chk.failing) == nfail:
                 chk.broke("correspondence model/implementation differs on %s %s: model=%s impl=%s" % (v, ia, mout[i], iout[i]))
-            for klass, msg in spec_check(op, ma, mo):
-                pass  # the model is judged by its theorems; a model/oracle disagreement shows as impl/oracle + correspondence
+            # the model is proved sound: a success of the model rejected by the oracle means oracle and theorem disagree
+            if len(chk.failing) == nfail and (spec_check(op, ma, mo) or (exp is not None and mo != exp)):
+                chk.broke("extracted model violates the specification oracle on %s %s: model=%s" % (op, ma, mout[i]))
     if len(chk.broken) > 20:
         chk.broken = chk.broken[:20] + [{"what": "... %d more" % (len(chk.broken) - 20), "detail": ""}]
-    chk.cov["rule"] = ("moduli: tiny/2^k/prime powers/primes (word, multi-limb)/smooth composites/random composites; residues: a*b^-1 inside, at the edge of and "
+    chk.cov["rule"] = ("integers: moduli tiny/2^k/prime powers/primes (word, multi-limb)/smooth composites/random composites; residues a*b^-1 inside, at the edge of and "
                        "outside the envelope, negative, >= m, < -m, sharing a factor with m, random; k in {1,2,sqrt m (+-2),m/2,m-1,m,small,random}; "
-                       "exhaustive (m,f,k) block for small m; envelope enumeration b <= 64; non-trivial = m > 3; distinct = (variant,args)")
+                       "exhaustive (m,f,k) block for small m; envelope enumeration b <= 64.  polynomials over F_p, p in %s: M random/monic/X^n/power of a linear factor, "
+                       "deg M in 1..16 (48 thorough), dk in [0, deg M); P = A/B mod M inside the uniqueness range (also with a common factor), zero, constant, deg >= deg M, "
+                       "multiple of M, sharing a factor with M, deg = dk, random; exhaustive block over F_2 and F_3.  non-trivial = m > 3 resp. deg M >= 2; distinct = (variant,args)" % POLY_PRIMES)
     chk.cov["traces_validated_against_impl"] = ncorr
-    chk.cov["variants"] = len(VARIANTS)
+    chk.cov["variants"] = len(VARIANTS) + 6
     chk.cov["distribution"] = dict(sorted(stats.items()))
     fb = {}
     for f in chk.failing:
-        key = "%s[%s] %s" % (f["site"], f["klass"], f["expected"] if f["klass"] != "completeness" else "not reconstructed")
+        key = "%s[%s] %s" % (f["site"], f["klass"], f["expected"] if f["klass"] not in ("completeness", "uniqueness") else "not reconstructed")
         fb[key] = fb.get(key, 0) + 1
     chk.cov["failing_by_class"] = fb
     return chk.finish()
